@@ -110,3 +110,15 @@ package ranges
 //@   at call (lang/stdio.Io).ReadArray#1 assert unbox(r.Match, *rfIndex).start == old(unbox(r.Match, *rfIndex).start) + ite(r.Buffer, length + 1, 0)
 //@   at call (lang/stdio.Io).ReadArray#1 assert unbox(r.Match, *rfIndex).end == old(unbox(r.Match, *rfIndex).end) + ite(r.Buffer, length + 1, 0)
 //@   at call (lang/stdio.Io).ReadArray#1 assert imp(r.Buffer, arg0 == p.Context) && imp(!r.Buffer, recv == old(p.Stdin) && arg0 == p.Context)
+
+// ---- C19: the regexp matcher never runs with a missing expression --------------------------------------
+// A matcher is installed only when BOTH expressions compiled; Start / End are then called on compiled
+// expressions only (a nil *Regexp panics inside Match).
+//@ func newRegexp [C19]
+//@   requires r != nil
+//@   ensures imp(result == nil, typeis(r.Match, *rfRegexp) && unbox(r.Match, *rfRegexp) != nil && unbox(r.Match, *rfRegexp).rxStart != nil && unbox(r.Match, *rfRegexp).rxEnd != nil)
+//@   ensures imp(result != nil, r.Match == old(r.Match))
+//@ func (*rfRegexp).Start [C19]
+//@   requires rf != nil && rf.rxStart != nil
+//@ func (*rfRegexp).End [C19]
+//@   requires rf != nil && rf.rxEnd != nil
